@@ -10,6 +10,7 @@ import (
 	"math/big"
 	"strings"
 	"sync"
+	"time"
 
 	"golang.org/x/tools/go/ssa"
 )
@@ -49,14 +50,19 @@ type Worker struct {
 	ctx      solverCtx
 	lastVals map[string]ModelVal
 
-	globals    map[*ssa.Global]*Value
-	constCache map[*ssa.Const]Value
-	fnInfos    map[*ssa.Function]*fnInfo
-	undo       []undoEntry
-	mapUndo    []func()
-	logging    bool
-	maxSteps   int64
-	depth      int
+	globals          map[*ssa.Global]*Value
+	constCache       map[*ssa.Const]Value
+	fnInfos          map[*ssa.Function]*fnInfo
+	undo             []undoEntry
+	mapUndo          []func()
+	logging          bool
+	maxSteps         int64
+	tick             int
+	absFloatText     bool
+	loopBound        int
+	absFloatArith    bool
+	opaqueParseFloat bool
+	depth            int
 
 	branches        int
 	knownBranches   int
@@ -399,6 +405,10 @@ func (fr *frame) run() {
 		if w.path.steps > w.maxSteps {
 			panic(budgetEnd{"step budget"})
 		}
+		w.tick++
+		if w.tick&0xfff == 0 && w.ex != nil && time.Now().After(w.ex.deadline) {
+			panic(budgetEnd{"wall-clock deadline inside a path"})
+		}
 		jumped := false
 		for _, in := range instrs[np:] {
 			switch fr.visit(in) {
@@ -511,8 +521,47 @@ func (fr *frame) visit(instr ssa.Instruction) continuation {
 		switch c := c.(type) {
 		case bool:
 			b = c
+			if w.loopBound > 0 {
+				// a comparison of symbolic operands that interval reasoning folded to a constant still
+				// makes the trip count depend on the inputs: it counts towards the unwinding bound
+				symDerived := false
+				if bo, ok := instr.Cond.(*ssa.BinOp); ok {
+					_, sx := fr.get(bo.X).(*Term)
+					_, sy := fr.get(bo.Y).(*Term)
+					symDerived = sx || sy
+				}
+				if symDerived {
+					if w.path.ifCount == nil {
+						w.path.ifCount = map[*ssa.If]int{}
+					}
+					w.path.ifCount[instr]++
+					if w.path.ifCount[instr] > w.loopBound {
+						w.stub(fmt.Sprintf("unwinding bound: a symbolic branch was decided more than %d times on one path; path cut (outside the claim)", w.loopBound))
+						panic(pathEnd{"unwinding bound"})
+					}
+				} else {
+					if w.path.ifConc == nil {
+						w.path.ifConc = map[*ssa.If]int{}
+					}
+					w.path.ifConc[instr]++
+					if w.path.ifConc[instr] > 20000 {
+						w.stub("a branch instruction was executed more than 20000 times on one path; path cut (running time and memory use are outside the claim)")
+						panic(pathEnd{"long concrete loop"})
+					}
+				}
+			}
 		case *Term:
 			b = w.path.Branch(c)
+			if w.loopBound > 0 && !c.isConst() {
+				if w.path.ifCount == nil {
+					w.path.ifCount = map[*ssa.If]int{}
+				}
+				w.path.ifCount[instr]++
+				if w.path.ifCount[instr] > w.loopBound {
+					w.stub(fmt.Sprintf("unwinding bound: a symbolic branch was decided more than %d times on one path; path cut (outside the claim)", w.loopBound))
+					panic(pathEnd{"unwinding bound"})
+				}
+			}
 		}
 		if b {
 			succ = 0
